@@ -438,16 +438,46 @@ def q5(e: Engine, rep: Report):
                       sc.kind == 'loop' and sc.ast is n.ast
                       for s in spawns for sc in s.scopes)]
         def iter_path(n):
-            # what is iterated, seen through a helper that hands it back
-            x, fr = common.origin(g, n.ast.iter, n.frame,
-                                  follow_locals=False)
-            # an element-wise projection `[f(x) for x in xs]` of the list
-            # has one element per entry
-            if isinstance(x, (ast.ListComp, ast.GeneratorExp)) and \
-                    len(x.generators) == 1 and not x.generators[0].ifs:
-                x, fr = common.origin(g, x.generators[0].iter, fr,
-                                      follow_locals=False)
-            return path_of(x, fr)
+            # what is iterated, seen through helpers that hand it on /
+            # back; a helper with several returns may also hand back an
+            # empty list ("nothing was due")
+            def walk(x, fr, depth=0):
+                if depth > 6:
+                    return {None}
+                x, fr = common.origin(g, x, fr, follow_locals=False)
+                # an element-wise projection `[f(x) for x in xs]` of the
+                # list has one element per entry
+                if isinstance(x, (ast.ListComp, ast.GeneratorExp)) and \
+                        len(x.generators) == 1 and \
+                        not x.generators[0].ifs:
+                    return walk(x.generators[0].iter, fr, depth + 1)
+                if isinstance(x, (ast.List, ast.Tuple)) and not x.elts:
+                    return set()
+                if isinstance(x, ast.Name):
+                    q = path_of(x, fr)
+                    if q in snaps:
+                        return {q}
+                    # a local assigned once from a helper call
+                    defs = [s2 for s2 in g.of_kind('stmt')
+                            if s2.frame is fr and
+                            isinstance(s2.ast, ast.Assign) and
+                            len(s2.ast.targets) == 1 and
+                            isinstance(s2.ast.targets[0], ast.Name) and
+                            s2.ast.targets[0].id == x.id]
+                    if len({id(d.ast) for d in defs}) == 1 and \
+                            isinstance(defs[0].ast.value, ast.Call):
+                        return walk(defs[0].ast.value, fr, depth + 1)
+                    return {q}
+                if isinstance(x, ast.Call):
+                    vals = common.values_of(g, x, fr)
+                    if not (len(vals) == 1 and vals[0][0] is x):
+                        out = set()
+                        for v, f2 in vals:
+                            out |= walk(v, f2, depth + 1)
+                        return out
+                return {path_of(x, fr)}
+            got = walk(n.ast.iter, n.frame)
+            return next(iter(got)) if len(got) == 1 else None
         local = [n for n in g.of_kind('iter') if isinstance(n.ast, ast.For)
                  and iter_path(n) in snaps and any(
                      sc.kind == 'loop' and sc.ast is n.ast
@@ -593,10 +623,16 @@ def q6(e: Engine, rep: Report):
     if not deciders:
         snaps = _snapshot_vars(g)
         uppers = {u for u, _ in snaps.values() if u}
+        def advanced(a):
+            if isinstance(a, ast.Assign) and \
+                    isinstance(a.targets[0], ast.Name):
+                return a.targets[0].id
+            if isinstance(a, ast.AugAssign) and \
+                    isinstance(a.target, ast.Name):
+                return a.target.id          # count += 1
+            return None
         deciders = [n for n in g.of_kind('stmt')
-                    if isinstance(n.ast, ast.Assign) and
-                    isinstance(n.ast.targets[0], ast.Name) and
-                    n.ast.targets[0].id in uppers and any(
+                    if advanced(n.ast) in uppers and any(
                         sc.kind == 'loop' and sc.ast is lp.ast
                         for sc in n.scopes)]
     if not deciders:
